@@ -360,7 +360,7 @@ fn grid_for(law: &str, which: usize) -> &'static [f64] {
         ("Exponential", _) => &[1e-3, 0.5, 1.0, 4.0, 1e3],
         ("Poisson", _) => &[1e-3, 0.5, 5.0, 9.99, 10.0, 42.0, 149.0, 150.0, 400.0],
         ("Binomial", 0) => &[0.0, 1.0, 15.0, 70.0, 1000.0],
-        ("Binomial", 1) | ("Bernoulli", _) => &[0.0, 1e-3, 0.3, 0.5, 0.7, 0.999, 1.0],
+        ("Binomial", 1) | ("Bernoulli", _) => &[0.0, 1e-3, 0.25, 0.3, 0.5, 0.7, 0.75, 0.999, 1.0],
         _ => &[-7.0, -2.0, 0.0, 1.0, 3.0, 6.0, 100.0],
     }
 }
@@ -376,7 +376,7 @@ fn gen_value(r: &mut Sm, law: &str, which: usize, cur: &[f64], want_valid: bool)
         let c = cur[which];
         let v = match r.below(8) {
             0..=2 => *r.pick(grid_for(law, which)),
-            3 => *r.pick(&[c * 0.5, c + 1.0, c - 1.0]),
+            3 => *r.pick(&[c * 0.5, c + 1.0, c - 1.0, 1.0 - c]),
             4 => c * 2.0 + 1.0,
             5 => c - 3.0,
             6 => match law {
@@ -591,7 +591,7 @@ impl Prop for C18 {
         let seeding = Seeding::gen(&mut r);
         let mut script = vec![];
         if r.chance(0.15) {
-            let kind = *r.pick(&["rng_zero", "rng_max", "rng_tiny", "rng_half", "rng_tail"]);
+            let kind = *r.pick(&["rng_zero", "rng_max", "rng_tiny", "rng_half", "rng_tail", "rng_zig_edge"]);
             script.push(Forced { at: r.below(6), raw: Hx(super::c19::fault_raw(kind, &mut r)), kind: kind.into() });
         }
         // thread scenario: thorough tier, one run in 16
@@ -718,7 +718,7 @@ impl Prop for C18 {
             "step.nonfinite", "step.default_ctor", "step.set.valid", "step.set.invalid", "step.update.valid", "step.update.invalid",
             "step.new.valid", "step.new.invalid", "step.clone", "step.compare", "outcome.rejected",
             "outcome.accepted", "by.New", "by.Set", "by.Update", "by.Clone", "by.Drop", "by.Density",
-            "fault.reject", "fault.partial", "resync.after_partial", "compare.fresh_thread", "compare.bulk",
+            "fault.reject", "fault.partial", "resync.after_partial", "compare.fresh_thread", "compare.bulk", "compare.successor_same_storage",
         ]
         .iter()
         .map(|s| s.to_string())
@@ -759,7 +759,7 @@ fn crosses(law: &str, old: f64, new: f64) -> u64 {
     bounds.iter().any(|b| (old < *b) != (new < *b)) as u64
 }
 
-fn compare_full(subject: &Obj, law: &str, params: &[f64], seed: u64, k: usize, script: &[(u64, u64)]) -> Result<(), (String, String)> {
+fn compare_full(subject: &Obj, law: &str, params: &[f64], seed: u64, k: usize, script: &[(u64, u64)], prev: Option<&[f64]>, st: &mut Stats) -> Result<(), (String, String)> {
     // twin is built BEFORE seeding; its construction must not draw
     let d0 = alea::sim::draws();
     let twin = match catch(|| Obj::new(law, params)) {
@@ -804,6 +804,29 @@ fn compare_full(subject: &Obj, law: &str, params: &[f64], seed: u64, k: usize, s
         return Err(("stale_stream".into(), format!(
             "seed {:#x}: sample stream differs from a fresh {}({:?}) at draw {} ({:?} vs {:?}; ends '{}' / '{}'; raw draws {} vs {})",
             seed, law, params, pos, a.vals.get(pos).map(|v| f64::from_bits(*v)), b.vals.get(pos).map(|v| f64::from_bits(*v)), a.end, b.end, a.draws, b.draws)));
+    }
+    // "does not depend on how many other distribution objects exist": an object constructed in the
+    // very storage where a differently parameterised object of the same law lived and sampled a
+    // moment ago (no other sampler in between, no setter ever called on it) must produce the same
+    // stream as the twin above
+    if let Some(pv) = prev {
+        if pv.iter().all(|x| x.is_finite()) && slice_bits_eq(pv, params).is_some() && script.is_empty() {
+            if let Ok(mut slot) = catch(|| Obj::new(law, pv)) {
+                st.inc("compare.successor_same_storage");
+                let _ = stream(&slot, seed ^ 0x5bd1, 3);
+                match catch(|| Obj::new(law, params)) {
+                    Ok(o) => slot = o,
+                    Err(_) => return Ok(()),
+                }
+                let c = stream(&slot, seed, k);
+                if c != b {
+                    let pos = c.vals.iter().zip(&b.vals).position(|(x, y)| x != y).unwrap_or(c.vals.len().min(b.vals.len()));
+                    return Err(("depends_on_other_objects".into(), format!(
+                        "seed {:#x}: a fresh {}({:?}) that replaces a just-sampled {}({:?}) in the same storage gives a different stream than a fresh {}({:?}) elsewhere (first difference at draw {}): sampling depends on which other objects existed",
+                        seed, law, params, law, pv, law, params, pos)));
+                }
+            }
+        }
     }
     Ok(())
 }
@@ -867,6 +890,7 @@ fn exec_history(case: &Case, st: &mut Stats) -> Option<Viol> {
     let mut models: Vec<Vec<f64>> = vec![init];
     for (si, step) in case.steps.iter().enumerate() {
         st.inc("ops");
+        let prev_model: Vec<f64> = models[0].clone();
         let step_seed = crate::prng::mix64(0xC18 ^ ((si as u64) << 8) ^ models[0].iter().fold(0u64, |a, x| a.rotate_left(7) ^ x.to_bits()));
         let mut rejected = false;
         let opname = match step {
@@ -1132,7 +1156,7 @@ fn exec_history(case: &Case, st: &mut Stats) -> Option<Viol> {
         let mut surviving: Vec<Vec<f64>> = vec![];
         let mut first_err: Option<(String, String)> = None;
         for m in &models {
-            match compare_full(&subject, law, m, step_seed, 12, &script) {
+            match compare_full(&subject, law, m, step_seed, 12, &script, if step_seed % 2 == 0 { Some(&prev_model) } else { None }, st) {
                 Ok(()) => surviving.push(m.clone()),
                 Err(e) => {
                     if first_err.is_none() {
